@@ -253,6 +253,9 @@ class Report:
         prop = self.prop
         os.makedirs(EVIDENCE_DIR, exist_ok=True)
         os.makedirs(REPLAY_DIR, exist_ok=True)
+        for fn in os.listdir(REPLAY_DIR):   # replays of earlier runs of this check
+            if fn.startswith(prop + '-') and fn.endswith('.json'):
+                os.remove(os.path.join(REPLAY_DIR, fn))
         from vk.engine import Stats
         total = Stats()
         outcomes = collections.Counter()
